@@ -408,6 +408,9 @@ def run(tier):
     rule_R10(res, prog)
     rule_R11(res, prog)
     rule_R12(res, prog)
+    rule_R13(res, prog)
+    rule_R14(res, prog)
+    rule_R15(res, prog)
     rule_R1e(res, prog)
     return res.finish()
 
@@ -1017,4 +1020,132 @@ def rule_R12(res, prog):
                          "the tag length follows the ticket the peer sent, so a truncated ticket (tag of 1..15 octets) is opened and a forged "
                          "one is accepted with probability 2^-8 per try" % (fn.relfile, ln, pp(ct)[:40], pp(ptl)[:30], TAG), file=fn.relfile, line=ln)
         res.instance(rid, "tls13DecryptTicket:%s AEAD open with ciphertext length = plaintext length + %d" % (ln, TAG), ok, finding=f_)
+    res.floor(rid, 1)
+
+
+def rule_R13(res, prog):
+    """'not been invalidated by a fatal alert' for a fatal alert RECEIVED (or an internal error) on a connection that holds a
+    reference to a cache entry - typically one that was resuming it: matrixUpdateSession, run when that connection is
+    deleted, wipes the entry's master secret.  From the table lock no path reaches a return without the wipe unless it took
+    the edge on which SSL_FLAGS_ERROR is clear: no other test (handshake state, id comparison) is decided first."""
+    from sa import cfgutil as cu
+    rid = "C14.R13"
+    res.rule(rid, "an errored connection invalidates the cache entry it references: in matrixUpdateSession the wipe is not preceded by another early exit")
+    lst = prog.by_name.get("matrixUpdateSession")
+    if not lst:
+        raise AnalysisBroken("C14.R13: matrixUpdateSession vanished")
+    fn = lst[0]
+    ERR = prog.const("SSL_FLAGS_ERROR")
+    MEMSET = {"memset", "__builtin_memset", "__builtin___memset_chk"}
+
+    def wipes_secret(x):
+        for n in walk(x):
+            if n.get("k") == "call" and n.get("fn") in MEMSET and n.get("a"):
+                d = strip(n["a"][0])
+                z = strip(n["a"][1]) if len(n["a"]) > 1 else None
+                if d is not None and d.get("k") == "mem" and d.get("f") == "masterSecret" and d.get("r") != "sslSec" \
+                        and z is not None and z.get("k") == "int" and z["v"] == 0:
+                    return True
+        return False
+
+    def error_clear_edge(b, k):
+        t = b.get("term")
+        if t is None or "c" not in t or len(b["succ"]) != 2:
+            return False
+        for (txt, tr, nd) in cu._cond_atoms(t["c"], k == 0):
+            if txt == "(ssl->flags & %d)" % ERR and not tr:
+                return True
+        return False
+    locks = cu.find_sites(fn, lambda n: n.get("k") == "call" and n.get("fn") == "psLockMutex")
+    for (bid, idx, ln, node) in locks:
+        path = cu.escapes(fn, (bid, idx), wipes_secret, exempt_edge=error_clear_edge)
+        f_ = None
+        if path is not None:
+            f_ = Finding(PROP, rid, fn.name, "an errored connection can leave its cache entry resumable",
+                         "%s:%s matrixUpdateSession(): from the table lock a path reaches the return at line %s (via lines %s) without wiping the entry's "
+                         "master secret and without having seen SSL_FLAGS_ERROR clear: a connection that was resuming session S and receives a "
+                         "fatal alert before its Finished is deleted without invalidating S, which stays resumable" % (
+                             fn.relfile, ln, path[-1][1], [p[1] for p in path[-6:]]), file=fn.relfile, line=ln)
+        res.instance(rid, "matrixUpdateSession: lock at line %s -> wipe on every path on which SSL_FLAGS_ERROR may be set" % ln, path is None, finding=f_)
+    res.floor(rid, 1)
+
+
+def rule_R14(res, prog):
+    """'altered, truncated ... identifiers lead to a full handshake or to failure, never to a resumed session' for the
+    session-id cache: matrixResumeSession hands the entry's master secret to the connection only when the presented id has
+    the full length the cache hands out AND equals the entry's id over that full (constant) length - the first four bytes
+    are just the table index, so a comparison over `the length the client sent` lets a 4-byte id address slot 0."""
+    from sa import cfgutil as cu
+    rid = "C14.R14"
+    res.rule(rid, "session-id cache lookup: the whole 32-byte id is compared and shorter ids never resume")
+    lst = prog.by_name.get("matrixResumeSession")
+    if not lst:
+        raise AnalysisBroken("C14.R14: matrixResumeSession vanished")
+    fn = lst[0]
+    FULL = prog.const("SSL_MAX_SESSION_ID_SIZE")
+    facts = cu.guard_facts(fn)
+    n = 0
+    for b in fn.blocks:
+        for i, ln, x in cu.block_exprs(b):
+            for m in walk(x):
+                if m.get("k") == "call" and m.get("fn") in ("memcpy", "__builtin_memcpy", "__builtin___memcpy_chk") and m.get("a"):
+                    d = strip(m["a"][0])
+                    if d is None or d.get("k") != "mem" or d.get("f") != "masterSecret":
+                        continue
+                    n += 1
+                    fs = facts.get(b["id"], frozenset())
+                    full_len = any(not tr and txt == "(ssl->sessionIdLen != %d)" % FULL for (txt, tr) in fs) or \
+                        any(tr and txt == "(ssl->sessionIdLen == %d)" % FULL for (txt, tr) in fs)
+                    cmp_full = any(not tr and txt.replace("__builtin_", "").startswith("memcmp(g_sessionTable[i].id, id, %d)" % FULL) for (txt, tr) in fs) or \
+                        any(not tr and txt.replace("__builtin_", "").startswith("memcmp(id, g_sessionTable[i].id, %d)" % FULL) for (txt, tr) in fs)
+                    ok = full_len and cmp_full
+                    f_ = None
+                    if not ok:
+                        f_ = Finding(PROP, rid, fn.name, "a truncated session id can resume",
+                                     "%s:%s matrixResumeSession(): the entry's master secret is handed to the connection %s: a ClientHello whose "
+                                     "session id is only the first bytes of a cached id (the first four are the table index) gets an abbreviated "
+                                     "handshake" % (fn.relfile, ln, "without the fact sessionIdLen == %d" % FULL if not full_len else
+                                                    "without a comparison of the whole %d-byte id (constant length)" % FULL), file=fn.relfile, line=ln)
+                    res.instance(rid, "matrixResumeSession:%s secret handed over under sessionIdLen == %d and memcmp over %d bytes == 0" % (ln, FULL, FULL), ok, finding=f_)
+    res.floor(rid, 1)
+
+
+def rule_R15(res, prog):
+    """'expired ... identifiers ... never a resumed session': the age of a cache entry / ticket is psDiffMsecs(), a signed
+    32-bit number of milliseconds computed from 64-bit clock values.  A plain truncation makes an age of 2^32 ms + x look
+    like x again (an entry expired 48 days ago is fresh).  Every return of psDiffMsecs that narrows a 64-bit local is reached
+    only with that local compared against both int32 bounds (saturation)."""
+    from sa import cfgutil as cu
+    rid = "C14.R15"
+    res.rule(rid, "psDiffMsecs saturates: a 64-bit age is narrowed to 32 bits only inside the int32 range")
+    n = 0
+    for fn in prog.by_name.get("psDiffMsecs", []):
+        facts = cu.guard_facts(fn)
+        for b in fn.blocks:
+            for i, ln, x in cu.block_exprs(b):
+                if x.get("k") != "ret" or x.get("e") is None:
+                    continue
+                e = strip(x["e"])
+                if e is not None and e.get("k") == "int":
+                    continue
+                n += 1
+                # the accepted form: return (int32) v with v a local, facts (v > HI) false and (v < LO) false
+                inner = e
+                while inner is not None and inner.get("k") == "cast":
+                    inner = strip(inner["e"])
+                ok = False
+                why = "the returned expression is 64-bit arithmetic narrowed by a cast"
+                if inner is not None and inner.get("k") == "var":
+                    v = inner["n"]
+                    fs = facts.get(b["id"], frozenset())
+                    hi = any(not tr and (txt.startswith("(%s > " % v) or txt.startswith("(%s >= " % v)) for (txt, tr) in fs)
+                    lo = any(not tr and (txt.startswith("(%s < " % v) or txt.startswith("(%s <= " % v)) for (txt, tr) in fs)
+                    ok = hi and lo
+                    why = "`%s` is narrowed without having been compared against %s" % (v, "both bounds" if not hi and not lo else ("the upper bound" if not hi else "the lower bound"))
+                f_ = None
+                if not ok:
+                    f_ = Finding(PROP, rid, fn.name, "the age of a cache entry wraps around",
+                                 "%s:%s psDiffMsecs(): %s: an age of 2^32 ms + x reads as x, so a session cache entry (or a TLS 1.3 ticket) that "
+                                 "expired is accepted again for SSL_SESSION_ENTRY_LIFE every 49.7 days" % (fn.relfile, ln, why), file=fn.relfile, line=ln)
+                res.instance(rid, "psDiffMsecs:%s narrowing return is range-checked" % ln, ok, finding=f_)
     res.floor(rid, 1)
